@@ -755,6 +755,32 @@ impl<'d> Session<'d> {
                                     );
                                 }
                             }
+                            // `with_type_mod(m)` is for code OUTSIDE the generated module
+                            // (Type::ident() prefixes names with it); the module's own items
+                            // refer to one another without it - no module `m` exists in there
+                            if let Some(m) = &self.desc_settings.type_mod {
+                                let needle = format!("{m} :: ");
+                                let mut from = 0;
+                                while let Some(off) = a[from..].find(&needle) {
+                                    let at = from + off;
+                                    let before = a[..at].trim_end().chars().last();
+                                    let path_start = !matches!(before, Some(c) if c.is_ascii_alphanumeric() || c == '_' || c == ':' || c == '"');
+                                    if path_start {
+                                        if self.reported_problems.insert(format!("type_mod path {m}")) {
+                                            let ctx: String = a[at.saturating_sub(60)..].chars().take(140).collect();
+                                            self.violate(
+                                                "I5",
+                                                format!("unresolved:{opkind}"),
+                                                step,
+                                                format!("unresolved: a path starts with the type_mod `{m}::` inside the generated module: …{ctx}…"),
+                                                "no duplicate or unresolved names in the output",
+                                            );
+                                        }
+                                        break;
+                                    }
+                                    from = at + needle.len();
+                                }
+                            }
                             // the dependency flags (uses_chrono() ...) are observed, not judged:
                             // no listed property speaks about them (C01 counts serde_json among
                             // the dependencies the output may always use)
